@@ -42,6 +42,7 @@ type c07Scenario struct {
 	Pipe      simpipe.Spec `json:"pipe"`
 	AltChunks []int        `json:"alt_chunks,omitempty"`
 	CheckAlt  bool         `json:"check_alt,omitempty"`
+	Rescan    bool         `json:"rescan,omitempty"`
 	Func      string       `json:"func,omitempty"`
 	Input     string       `json:"input,omitempty"`
 }
@@ -529,6 +530,30 @@ func (x *c07Run) runStream(sc *c07Scenario, m *material) {
 			res.Probes["cut_in:"+field]++
 		}
 	}
+	// an error returned by the reader must not be turned into a clean end of input
+	if cut && fkind == "eio" && r.Reader.ErrorDelivered && r.Err == nil {
+		x.violate(sc, "read-error-swallowed", format, fmt.Sprintf("the reader failed with an I/O error at offset %d (in %s); the scan returned %d records and Err()==nil", c, field, len(r.Seqs)))
+	}
+	// T6: the same stream scanned again in the same process (no process boundary) gives the same outcome
+	if sc.Rescan {
+		r2 := scanAll(m.data, sc.Pipe, 0)
+		res.Evaluations++
+		res.SimOps += r2.Reads
+		res.Probes["rescan_in_same_process_cases"]++
+		if r2.Panic != "" {
+			x.violate(sc, "panic", panicSite(r2.Panic), "scanner panicked on the second scan of the same stream in one process: "+firstLine(r2.Panic))
+		} else if (r2.Err == nil) != (r.Err == nil) || len(r2.Seqs) != len(r.Seqs) {
+			x.violate(sc, "rescan-variance", "count", fmt.Sprintf("first scan: %d records err=%v; second scan of the same bytes in the same process: %d records err=%v", len(r.Seqs), r.Err, len(r2.Seqs), r2.Err))
+		} else {
+			a, b := rewritten(r.Seqs), rewritten(r2.Seqs)
+			for i := range a {
+				if !bytes.Equal(a[i], b[i]) {
+					x.violate(sc, "rescan-variance", "content", fmt.Sprintf("record %d differs between the first and the second scan of the same bytes in one process", i))
+					break
+				}
+			}
+		}
+	}
 	// T4: length consistency
 	if m.t4 && !cut {
 		res.Probes["length_consistency_cases"]++
@@ -770,6 +795,7 @@ func (C07) RunSeed(tier string, seed uint64, idx int) *core.Result {
 			if r.Chance(1, 12) {
 				s.CheckAlt, s.AltChunks = true, genChunks(r)
 			}
+			s.Rescan = r.Chance(1, 16)
 			x.runStream(&s, m)
 		}
 		if idx%40 == 0 {
@@ -798,6 +824,7 @@ func (C07) RunSeed(tier string, seed uint64, idx int) *core.Result {
 				}
 			}
 			sc.CheckAlt, sc.AltChunks = r.Chance(1, 3), genChunks(r)
+			sc.Rescan = r.Chance(1, 3)
 			x.runStream(sc, sc.build())
 			if idx%40 == 1 && i == 0 {
 				res.Sample, _ = json.Marshal(sc)
@@ -835,6 +862,7 @@ func (C07) RunSeed(tier string, seed uint64, idx int) *core.Result {
 				sc.Edits = append(sc.Edits, genT4Edit(r, length))
 			}
 			sc.Pipe = simpipe.Spec{Chunks: genChunks(r), CutAt: -1}
+			sc.Rescan = r.Chance(1, 4)
 			x.runStream(sc, sc.build())
 			if idx%40 == 2 && i == 0 {
 				res.Sample, _ = json.Marshal(sc)
@@ -961,6 +989,11 @@ func (C07) Candidates(raw json.RawMessage) []json.RawMessage {
 	if sc.CheckAlt {
 		c := cl()
 		c.CheckAlt = false
+		emit(c)
+	}
+	if sc.Rescan {
+		c := cl()
+		c.Rescan = false
 		emit(c)
 	}
 	if sc.CRLF {
